@@ -26,6 +26,12 @@ for name in sorted(os.listdir(S)):
     if len(title) > 95:
         title = title[:92] + "..."
     rows.append("| %s | %s | %s | %s | %s |" % (name, title, "`%s`" % rule if own.get("exit") == 1 else "**missed** (exit %s)" % own.get("exit"), ", ".join(others) or "–", ", ".join(inc) or "–"))
-print("| change | what it does | own check: first rule that fires | also caught by | exit 2 in |")
-print("|---|---|---|---|---|")
-print("\n".join(rows))
+table = "| change | what it does | own check: first rule that fires | also caught by | exit 2 in |\n|---|---|---|---|---|\n" + "\n".join(rows)
+if "--inject" in sys.argv:
+    dp = os.path.join(HERE, "DESIGN.md")
+    d = open(dp).read()
+    a, b = d.index("<!-- CATCH_TABLE_BEGIN -->"), d.index("<!-- CATCH_TABLE_END -->")
+    open(dp, "w").write(d[:a] + "<!-- CATCH_TABLE_BEGIN -->\n" + table + "\n" + d[b:])
+    print("DESIGN.md updated, %d rows" % len(rows))
+else:
+    print(table)
